@@ -27,6 +27,7 @@ class Body:
         self._names = None
         self._preds = None
         self._mutref = None
+        self._reach = None
         self.children = []
 
     @property
